@@ -32,6 +32,12 @@ def mapFn (f : String) (r : KV) : KV :=
   | "inc" => (r.1 + 1, r.2 * 2)
   | "swap" => (r.2, r.1)
   | "id" => r
+  -- "p…": the same function applied to `Prefixed(src, 2)` (the prefix changes the slice type, not the rows)
+  | "pinc" => (r.1 + 1, r.2 * 2)
+  | "pid" => r
+  -- "q…": the same over `Prefixed(src, 1)`
+  | "qinc" => (r.1 + 1, r.2 * 2)
+  | "qid" => r
   | _ =>
     if f.startsWith "mod" then
       let m : Int := ((f.drop 3).toString.toNat?.getD 1 : Nat)
